@@ -270,7 +270,11 @@ def run(tier, seed):
     for n, d in bad:
         findings.add('alias', n, 'attribute %s is not an alias of property %s' % (d, n))
     nt = sum(len(h) for h in cases)
+    # how much of the code the model transcribes do the correspondence inputs execute (a measurement, not a verdict)
+    _sample = cases[::max(1, len(cases) // 1500)]
+    coverage_lines = lib.modelled_code_coverage([('css_parser.css.cssstyledeclaration', 'CSSStyleDeclaration.setProperty'), ('css_parser.css.cssstyledeclaration', 'CSSStyleDeclaration.getProperty'), ('css_parser.css.cssstyledeclaration', 'CSSStyleDeclaration.getProperties'), ('css_parser.css.cssstyledeclaration', 'CSSStyleDeclaration.removeProperty'), ('css_parser.css.cssstyledeclaration', 'CSSStyleDeclaration.item'), ('css_parser.css.cssstyledeclaration', 'CSSStyleDeclaration.keys')], [lambda c=c: py_of(c) for c in _sample], limit=1505)
     coverage = {
+        'modelled_code_line_coverage': coverage_lines,
         'evaluations': nt,
         'distinct_nontrivial': len(set(cases)),
         'rule': 'cases = operation histories on one declaration block over (2 names x 3 spellings x 2 values x '
